@@ -55,7 +55,7 @@ def instances(th):
     lhs = dict(nfsm=1, nv=48, conds="CondsOne", tests="NoTests", rhs="RhsLhs" if not th else "RhsRich", targets="TargetsRich",
                states="NoStates", inits="NoInits", maxlen=3, maxdepth=1, maxassign=2, mutant="")
     fsm = dict(nfsm=1, nv=144, conds="CondsOne", tests="NoTests", rhs="RhsOne", targets="TargetsFsm",
-               states="ThreeStates" if th else "TwoStates", inits="SomeInits", maxlen=9 if th else 7, maxdepth=2,
+               states="ThreeStates" if th else "TwoStates", inits="SomeInits", maxlen=8 if th else 7, maxdepth=2,
                maxassign=3, mutant="")
     mixed = dict(nfsm=1, nv=144, conds="CondsRich", tests="TestsRich", rhs="RhsRich", targets="TargetsRich",
                  states="ThreeStates", inits="SomeInits", maxlen=14 if th else 11, maxdepth=3, maxassign=5, mutant="")
